@@ -575,3 +575,68 @@ def run(ctx, rep):
     for cq_ in sorted(q for q, c_ in ctx.repo.classes.items() if q.startswith("rpyc.core.service.") or q in (
             K.CONN, "rpyc.core.channel.Channel", "rpyc.core.async_.AsyncResult")):
         H.private_state(ctx, rep, "R16.3", cq_)
+    _signal_shared_state(ctx, rep)
+
+
+def _signal_shared_state(ctx, rep):
+    """R16.6: a signal handler runs between any two bytecodes of the main flow. A field of the server that is modified both by a
+    registered signal handler and by the accept path (`self._children.add(pid)` after fork() vs. `discard(pid)` in the SIGCHLD
+    handler) can be modified in the wrong order - a child that exits at once is reaped before it is recorded and stays recorded
+    for ever - unless the main-flow writer masks the signal (signal.pthread_sigmask)."""
+    rep.rule("R16.6", "no server state is modified both by a signal handler and by unmasked main-flow code")
+    n_handlers = 0
+    bad = []
+    MUT = ("add", "discard", "remove", "append", "pop", "clear", "update", "extend", "insert", "popitem", "setdefault", "put")
+    for cq, c in sorted(ctx.repo.classes.items()):
+        if not cq.startswith(SRV + "."):
+            continue
+        handlers = set()
+        for m in c.methods.values():
+            for call in A.calls(m.node):
+                if (A.call_name(call) or "").endswith("signal.signal") and len(call.args) == 2:
+                    h = call.args[1]
+                    if isinstance(h, ast.Attribute) and isinstance(h.value, ast.Name) and h.value.id in ("self", "cls"):
+                        handlers.add(h.attr)
+        for hn in sorted(handlers):
+            hm = ctx.repo.method(c, hn)
+            if hm is None:
+                continue
+            n_handlers += 1
+            rcv = A.params(hm.node)[0]
+
+            def writes(fn, rcv_):
+                out = {}
+                for n in A.walk(fn):
+                    if isinstance(n, (ast.Assign, ast.AugAssign, ast.Delete)):
+                        tg = n.targets if not isinstance(n, ast.AugAssign) else [n.target]
+                        for t in tg:
+                            b = t
+                            while isinstance(b, ast.Subscript):
+                                b = b.value
+                            if isinstance(b, ast.Attribute) and isinstance(b.value, ast.Name) and b.value.id == rcv_:
+                                out.setdefault(b.attr, n)
+                    if isinstance(n, ast.Call) and isinstance(n.func, ast.Attribute) and n.func.attr in MUT:
+                        b = n.func.value
+                        if isinstance(b, ast.Attribute) and isinstance(b.value, ast.Name) and b.value.id == rcv_:
+                            out.setdefault(b.attr, n)
+                return out
+            hw = writes(hm.node, rcv)
+            if not hw:
+                continue
+            for k in ctx.repo.mro(c):
+                for m in k.methods.values():
+                    if m.name in ("__init__", hn):
+                        continue
+                    masked = any((A.call_name(x) or "").endswith("pthread_sigmask") for x in A.calls(m.node))
+                    mw = writes(m.node, A.params(m.node)[0] if A.params(m.node) else "self")
+                    for fld in sorted(set(hw) & set(mw)):
+                        if not masked:
+                            bad.append((fld, hm, m, mw[fld]))
+    rep.floor("R16.6", "signal handlers registered by server classes", n_handlers, 1)
+    rep.ob("R16.6", "servers: no field is modified both by a signal handler and by unmasked main-flow code", not bad,
+           "%d handler(s); they share no mutable field with the accept path" % n_handlers if not bad else
+           "self.%s is modified by the signal handler %s and by %s (`%s`) without masking the signal: the handler can run between "
+           "fork() returning and the bookkeeping that follows, so a child that exits at once is un-recorded before it is recorded - "
+           "the stale entry counts against every later client" % (
+               bad[0][0], bad[0][1].name, bad[0][2].name, A.src(bad[0][3])[:50]), ctx.loc(bad[0][3]) if bad else SRV.replace(".", "/") + ".py",
+           kind="site")
